@@ -5,7 +5,7 @@ From Pika Require Import Base.Conc Base.Agent Model.CondVar
   Proofs.CondVarInvA Proofs.CondVarInvB Proofs.CondVarInvC.
 Import ListNotations.
 
-Definition is_stop (o : cv_op) : bool := match o with CWaitStop => true | _ => false end.
+Definition is_stop (o : cv_op) : bool := match o with CWaitStop | CWaitStopFor => true | _ => false end.
 (* inside wait(lock, stoken, pred) after the stop_callback has been constructed *)
 Definition stop_zone (p : cv_pc) : bool :=
   match p with
@@ -15,7 +15,7 @@ Definition stop_zone (p : cv_pc) : bool :=
   end.
 (* past the stop_requested() test of the current round, up to the return of the detail wait *)
 Definition past_chk (p : cv_pc) : bool :=
-  match p with CUnlockU | CPush | CPreSusp | CSusp | CSleep | CRelockI | CCheck | CLockU _ => true | _ => false end.
+  match p with CUnlockU | CPush | CPreSusp | CSusp | CSleep | CRelockI | CCheck | CStopChk2 _ | CLockU _ => true | _ => false end.
 (* a notify_all that has not yet swapped the queue *)
 Definition pending_all (p : cv_pc) : bool :=
   match p with NLockI true (S _) _ | NPop true _ _ => true | _ => false end.
